@@ -38,27 +38,27 @@ ANCHORS = {
 }
 MANIFEST = dict(
     text=('Proof: Lean theorems X_shape / X_elem / X_inBounds (all ranks, extents and arguments, positive extents as guard) about a hand-written '
-          'model of the index functions of tile, repeat (scalar / per-element / axis None), roll (any shift, single / several distinct axes / None), '
-          'pad, take, concatenate, resize, compress, tril/triu, diagflat, tri/eye/identity, the stack family (through concatenate + flat-order '
-          'preservation of reshape); one-axis / equal-section cases of expand, sliding_window and split; diagonal for matrices with offset >= 0 '
-          '(partial). The model is tied to the C++ by a differential run of every view over an exhaustive small scope on every check and '
-          'cross-checked against NumPy / the documented definitions; where the unchanged code breaks the property (negative axis in repeat / take / '
-          'concatenate / stack / compress, negative take indices, repeated roll axes, diagonal with negative or too large offset, split cut points beyond '
-          'the extent, arange with negative count or negative integer step and real dtype, linspace num=1) the model mirrors the code, a '
-          '_counterexample theorem records the witness and the input class is a known finding.'),
+          'model of the index functions of tile, repeat (scalar / per-element / axis None, every accepted axis incl. negative), roll (any shift, one axis / '
+          'several axes incl. repeated ones = summed shifts / None), pad, take (negative and repeated entries, negative axes, None), concatenate, resize, '
+          'compress, tril/triu, diagflat, tri/eye/identity, the stack family (through concatenate + flat-order preservation of reshape); one-axis / '
+          'equal-section cases of expand, sliding_window and split; diagonal for matrices with every offset (partial: rank 2). The model is tied to the '
+          'C++ by a differential run of every view over an exhaustive small scope on every check and cross-checked against NumPy / the documented '
+          'definitions. The defects found on the original tree (negative axis in repeat / take / concatenate / stack / compress, negative take '
+          'entries, repeated roll axes, diagonal with negative or too large offset, split cut points beyond the extent, arange negative count / negative '
+          'integer step with real dtype, linspace num=1) are repaired in /repo; model and theorems follow the repaired code and the regression inputs stay in the generators.'),
     note=('Lean kernel + propext/Classical.choice/Quot.sound; model hand-written, fidelity rests on the correspondence run (IMPL = MODEL on every '
-          'generated request, including the known-defect classes except split cut points beyond the extent); arange / linspace / full / zeros / ones(_like) '
-          'have no Lean model and are checked against NumPy only (real grids with relative tolerance 1e-6); statements listed in partial_statements are not claimed in full.'),
+          'generated request); arange / linspace / full / zeros / ones(_like) have no Lean model and are checked against NumPy only (real grids with '
+          'relative tolerance 1e-6); statements listed in partial_statements are not claimed in full.'),
     technique='Lean 4 induction proofs over List Nat shapes + differential correspondence (exhaustive small scope) + NumPy oracle')
 ASSUMPTIONS = [
     'machine width: model arithmetic is unbounded Nat/Int; a negative C++ int stored into size_t is modelled as 2^64 + v (u64/i2u), loop counters and ranks are far below 2^63',
     'resize: the float(...) round trip applied after the integer division in index::resize is exact below 2^24 (extents of the scope are far smaller)',
     'ndarray element access: data_.at(offset) with offset computed in size_t; an index outside the shape whose offset stays below the size is read silently (the harness prints what was read, `oob` when vector::at throws)',
-    'split parts go through view::slice; the model uses stop-start extents (C05 covers the slice arithmetic); a cut point beyond the extent is a known finding and not mirrored',
+    'split parts go through view::slice; the model uses stop-start extents with cut points clamped to the extent (C05 covers the slice arithmetic)',
     'where: the broadcast rule is the simple right-aligned one (C06 proves the C++ broadcast_to equals it)',
 ]
 PARTIAL = [
-    'diagonal2d_*_partial: diagonal proved for rank 2, axes (0,1), 0 <= offset <= columns only; full statement (any rank, any accepted axis pair, any offset with non-negative length) kept in Props/C04.lean, violated by the unchanged code for offset < 0 / beyond the extent',
+    'diagonal2d_*_partial: diagonal proved for rank 2, axes (0,1), every offset (negative, empty result); full statement (any rank, any accepted axis pair) kept in Props/C04.lean, under correspondence for every rank',
     'expand_*: proved for one axis (any accepted sign); several axes / per-axis spacings under correspondence only',
     'slidingWindow_*: proved for a scalar window on one axis; window lists, axis lists and axis None under correspondence only',
     'split_*: proved for N equal sections; cut-point lists under correspondence only',
@@ -134,7 +134,7 @@ def gen_repeat(tier, rng):
         for ax in axes_of(len(s)):
             for r in (1, 2, 3):
                 yield Case('repeat shape=%s repeats=%d axis=%s' % (fmt(s), r, ax), H_A, oracle=ans(np.repeat(a, r, axis=ax)),
-                           dom=(ax is None or ax >= 0), nontrivial=r > 1, tags=['repeat', 'repeat.scalar', axtag(ax)])
+                           nontrivial=r > 1, tags=['repeat', 'repeat.scalar', axtag(ax)])
             if ax is None:
                 continue        # per-element repeats with axis None do not instantiate in nmtools (not runnable)
             n = s[ax]
@@ -144,12 +144,9 @@ def gen_repeat(tier, rng):
             lists += [tuple(rng.randint(0, 3) for _ in range(n)) for _ in range(2)]    # zeros allowed by NumPy
             for rs in lists:
                 yield Case('repeat shape=%s rlist=%s axis=%d' % (fmt(s), fmt(rs), ax), H_A, oracle=ans(np.repeat(a, rs, axis=ax)),
-                           dom=ax >= 0, tags=['repeat', 'repeat.list', axtag(ax)] + (['repeat.list.zero'] if 0 in rs else []))
+                           tags=['repeat', 'repeat.list', axtag(ax)] + (['repeat.list.zero'] if 0 in rs else []))
 
 
-def k_repeat_negative_axis(c):
-    op, d = parse(c.req)
-    return op == 'repeat' and d['axis'] != 'None' and int(d['axis']) < 0
 
 
 # ---------------------------------------------------------------- roll
@@ -189,24 +186,11 @@ def gen_roll(tier, rng):
                 axs = [x, x - dim]
                 shs = [1, 1]
                 yield Case('roll shape=%s slist=%s alist=%s' % (fmt(s), fmt(shs), fmt(axs)), H_A, oracle=ans(np.roll(a, shs, axis=tuple(axs))),
-                           dom=False, tags=['roll', 'roll.multi', 'roll.repeated-axis'])
+                           tags=['roll', 'roll.multi', 'roll.repeated-axis'])
 
 
-def roll_info(c):
-    op, d = parse(c.req)
-    if op != 'roll':
-        return None
-    s = ints(d['shape'])
-    if d.get('axis') == 'None':
-        return [prod(s)], [int(d['shift'])], [0]
-    axes = [int(d['axis'])] if 'axis' in d else ints(d['alist'])
-    shs = ints(d['slist']) if 'slist' in d else [int(d['shift'])] * len(axes)
-    return s, shs, [x % len(s) for x in axes]
 
 
-def k_roll_repeated_axis(c):
-    r = roll_info(c)
-    return r is not None and len(set(r[2])) < len(r[2])
 
 
 # ---------------------------------------------------------------- pad
@@ -244,18 +228,11 @@ def gen_take(tier, rng):
             for ind in lists:
                 neg = any(v < 0 for v in ind)
                 yield Case('take shape=%s indices=%s axis=%s' % (fmt(s), fmt(ind), ax), H_A, oracle=ans(np.take(a, ind, axis=ax)),
-                           dom=(not neg) and (ax is None or ax >= 0),
                            tags=['take', axtag(ax), 'index<0' if neg else 'index>=0'] + (['take.repeated'] if len(set(ind)) < len(ind) else []))
 
 
-def k_take_negative_index(c):
-    op, d = parse(c.req)
-    return op == 'take' and any(v < 0 for v in ints(d['indices']))
 
 
-def k_take_negative_axis(c):
-    op, d = parse(c.req)
-    return op == 'take' and d['axis'] != 'None' and int(d['axis']) < 0
 
 
 # ---------------------------------------------------------------- concatenate
@@ -270,25 +247,15 @@ def gen_concatenate(tier, rng):
                 s2[ax] = e
                 b = iota(s2, 1000)
                 yield Case('concatenate shape=%s shape2=%s axis=%d' % (fmt(s), fmt(s2), ax), H_A, oracle=ans(np.concatenate([a, b], axis=ax)),
-                           dom=ax >= 0, tags=['concatenate', axtag(ax)])
+                           tags=['concatenate', axtag(ax)])
     for _ in range(300 if tier == 'quick' else 1500):
         s, s2 = rng.choice(ss), rng.choice(ss)
         yield Case('concatenate shape=%s shape2=%s axis=None' % (fmt(s), fmt(s2)), H_A,
                    oracle=ans(np.concatenate([iota(s), iota(s2, 1000)], axis=None)), tags=['concatenate', 'axis=None'])
 
 
-def k_concatenate_negative_axis(c):
-    op, d = parse(c.req)
-    return op == 'concatenate' and d['axis'] != 'None' and int(d['axis']) < 0
 
 
-KNOWN_PREDICATES.update({
-    'repeat_negative_axis': k_repeat_negative_axis,
-    'roll_repeated_axis': k_roll_repeated_axis,
-    'take_negative_index': k_take_negative_index,
-    'take_negative_axis': k_take_negative_axis,
-    'concatenate_negative_axis': k_concatenate_negative_axis,
-})
 
 
 # ---------------------------------------------------------------- larger sampled shapes (rank <= 5, extents <= 7)
@@ -344,7 +311,6 @@ def gen(tier, rng):
     yield from gen_concatenate(tier, rng)
     for c in c04_bc.gen_bc(tier, rng):
         if c.req.split(' ', 1)[0] in MODELLED_BC:
-            # the Lean model answers these too; inputs inside a known-defect class are outside the modelled domain
+            # the Lean model answers these too
             c.model = True
-            c.dom = not any(f(c) for f in c04_bc.KNOWN_PREDICATES_BC.values())
         yield c
